@@ -165,8 +165,8 @@ def declare(spec):
         X.ghost['since'] = z3.Store(since_arr(X), o, z3.RealVal(0))
         return ZV(o)
     spec.constructors[K + '_WaitingGenerator'] = mk_wrec
-    spec.ghost_decls['alloc_WRec'] = lambda X: None
-    spec.ghost_decls['alloc_Prom'] = lambda X: None
+    spec.ghost_decls['alloc_WRec'] = spec.alloc_havoc('WRec')
+    spec.ghost_decls['alloc_Prom'] = spec.alloc_havoc('Prom')
 
     # CoroutineState members as integers (IntEnum)
     for nm, v in (('TERMINATED', 0), ('PAUSED', 1), ('ACTIVE', 2)):
